@@ -396,3 +396,128 @@ def cel_rows_grow_only(ctx, rule='K3'):
         ok, why = _c04.row_add_cel_inner(ctx, s_)
         ctx.inst(rule, 'add_cel#grow-only', ok, 'the cel row is only ever grown (resize_with(layer+1) under len < layer+1) before slot `layer` is used, so a lower '
                  'layer arriving later cannot truncate stored cels: %s' % why, s_.span, key=ctx.key(ab.name, rule, 'grow-only', ''))
+
+
+def _skip_when(cond, taken_truth):
+    """normalise a comparison to (op, A, B) meaning `A op B` holds exactly on the edge with outcome taken_truth"""
+    if cond[0] != 'bin' or cond[1] not in ('Lt', 'Le', 'Gt', 'Ge'):
+        return None
+    op = cond[1]
+    if not taken_truth:
+        op = {'Lt': 'Ge', 'Ge': 'Lt', 'Gt': 'Le', 'Le': 'Gt'}[op]
+    return op, cond[2], cond[3]
+
+
+def _safe_cull(b, img, cond, skip_truth, coords):
+    """is `skip when cond == skip_truth` a cull of pixels that lie outside the canvas anyway?  coords = [(axis, term)].
+    Accepted: LOWER >= dim(axis) where LOWER is the target coordinate with any non-negative loop-variable summands dropped;
+              UPPER <= 0 / UPPER < 1 ... where UPPER is the coordinate with a loop variable v in 0..E replaced by E (an exclusive bound)."""
+    import poly as P
+    n = _skip_when(cond, skip_truth)
+    if n is None:
+        return False
+    op, A, B = n
+    pa, pb = P.poly(A), P.poly(B)
+
+    def dim_of(t, axis):
+        t = P.canon(t)
+        nm = 'width' if axis == 0 else 'height'
+        return t[0] == 'call' and (t[1] == 'image::ImageBuffer::' + nm) and is_param(t[2][0], img) or \
+            (t[0] == 'field' and t[2] == str(axis) and t[1][0] == 'call' and t[1][1] == 'image::ImageBuffer::dimensions' and is_param(t[1][2][0], img))
+    for axis, coord in coords:
+        pc = P.poly(coord)
+        lv = [k for k in pc if any(P.loop_var_end(a) is not None for a in k)]
+        others = {k: v for k, v in pc.items() if k not in lv}
+        # all loop-variable summands are non-negative when they start at >= 0 with positive factors: only then may they be dropped
+        nonneg = all(pc[k] > 0 for k in lv)
+        # --- beyond the right / bottom edge: LOWER >= dim  (or LOWER > dim - 1)
+        if nonneg and op in ('Ge', 'Gt') and len(pb) >= 1:
+            b_is_dim = len(pb) == 1 and list(pb.values()) == [1] and len(list(pb)[0]) == 1 and dim_of(list(pb)[0][0], axis)
+            if b_is_dim:
+                # LOWER = others + any subset of the loop summands (A > dim is a fortiori a cull of off-canvas pixels)
+                if all(k in pc and pc[k] == v for k, v in pa.items()) and all(k in pa for k in others):
+                    return True
+        # --- before the left / top edge: UPPER <= 0, UPPER exclusive (v replaced by its end E)
+        if op in ('Le', 'Lt') and not pb or (op in ('Le', 'Lt') and list(pb) == [()]):
+            bound = pb.get((), 0)
+            # acceptable: UPPER <= 0  or UPPER < 1
+            if (op == 'Le' and bound == 0) or (op == 'Lt' and bound == 1):
+                up = dict(others)
+                okk = True
+                for k in lv:
+                    vars_ = [a for a in k if P.loop_var_end(a) is not None]
+                    if len(vars_) != 1:
+                        okk = False
+                        break
+                    st, en = P.loop_var_end(vars_[0])
+                    restk = tuple(a for a in k if a is not vars_[0])
+                    for ke, ve in P.poly(en).items():
+                        kk = tuple(sorted(restk + ke, key=repr))
+                        up[kk] = up.get(kk, 0) + pc[k] * ve
+                # UPPER as computed replaces *every* loop variable by its end; a cull placed inside an outer loop keeps that loop's
+                # variable: accept when pa equals `up` with any subset of the loop summands kept as they are
+                if okk:
+                    import itertools
+                    for r in range(len(lv) + 1):
+                        for keep in itertools.combinations(lv, r):
+                            cand = dict(others)
+                            for k in lv:
+                                if k in keep:
+                                    cand[k] = cand.get(k, 0) + pc[k]
+                                else:
+                                    vars_ = [a for a in k if P.loop_var_end(a) is not None]
+                                    st, en = P.loop_var_end(vars_[0])
+                                    restk = tuple(a for a in k if a is not vars_[0])
+                                    for ke, ve in P.poly(en).items():
+                                        kk = tuple(sorted(restk + ke, key=repr))
+                                        cand[kk] = cand.get(kk, 0) + pc[k] * ve
+                            cand = {k: v for k, v in cand.items() if v != 0}
+                            if cand == pa:
+                                return True
+    return False
+
+
+def no_extra_skips(ctx, rule='K8'):
+    """inside the rasterisers nothing but the per-pixel clip test (and culls of tiles / rows that lie wholly outside the canvas)
+    decides whether a pixel is blended: no other guard on the blend call, no early loop exit"""
+    import poly as P
+    fx = ctx.fx
+    for fn in RASTER:
+        b = ctx.anchor(fn)
+        if b is None:
+            continue
+        img = param_named(b, ty_contains='image::ImageBuffer')
+        for c, fterm, (dst, src, op) in blend_calls(b):
+            if not (dst[0] == 'call' and dst[1] == 'image::ImageBuffer::get_pixel'):
+                continue
+            coords = [(0, dst[2][1]), (1, dst[2][2])]
+            cps = [P.poly(t) for _, t in coords]
+            extra = []
+            for cond, vals, a in q.guards(b, c.bb):
+                if cond[0] == 'discr' and cond[1][0] == 'next':
+                    continue
+                truth = q.bool_outcome(b, a, vals)
+                if cond[0] == 'bin' and (P.poly(cond[2]) in cps or P.poly(cond[3]) in cps):
+                    continue            # a clip test on the target coordinate itself (judged by the clip rule)
+                if cond[0] == 'call' and cond[1] == 'std::ops::Range::contains' and P.poly(cond[2][1]) in cps:
+                    continue
+                if truth is not None and _safe_cull(b, img, cond, not truth, coords):
+                    continue
+                extra.append(show(cond)[:90])
+            for L in b.cfg.loops_containing(c.bb):
+                for x, y, kind in q.loop_exit_kinds(b, L):
+                    if kind in ('exhausted', 'unreachable'):
+                        continue
+                    tx = b.blocks[x]['term']
+                    okx = False
+                    if tx['k'] == 'switch':
+                        cond = q.switch_cond(b, x)
+                        vals = q.edge_value(b, x, y)
+                        truth = q.bool_outcome(b, x, vals)
+                        okx = truth is not None and _safe_cull(b, img, cond, truth, coords)
+                        if not okx:
+                            extra.append('early exit under ' + show(cond)[:80])
+                    else:
+                        extra.append('early exit')
+            ctx.inst(rule, fn.split('::')[-1] + '#only-clip-guards', not extra, 'conditions other than the per-pixel clip test that decide whether a pixel is drawn: %s'
+                     % (extra or 'none (culls of wholly off-canvas rows/tiles would be accepted)'), c.span, key=ctx.key(fn, rule, 'extra-skip', ''))
